@@ -1068,9 +1068,10 @@ class DFTTransformer(BilateralForwardTransformer):
                 result_0 = 0
                 # Polynom
                 for i, xx in enumerate(poly_coeff):
-                    # as n!=n0 this n has to be excluded
-                    if i != n0:
-                        result_0 += xx * UnitImpulse(kn - i) * self.N
+                    # Transform of (1 - delta(n - n0)) * qq**i: the
+                    # sample at n = n0 is removed from the sum.
+                    result_0 += xx * (UnitImpulse(kn - i) * self.N - sym.exp(
+                        -sg * j * 2 * pi * n0 * (kn - i) / self.N))
 
                 # Denominator is linear D=1-a*qq
                 if Denom.as_poly(qq).is_linear:
@@ -1083,7 +1084,7 @@ class DFTTransformer(BilateralForwardTransformer):
                               match[0] - expr.subs(n, n0))
                         return None
                     # Result
-                    result = ((self.N - 1) / 2 - kn) * \
+                    result = rem * ((self.N - 1) / 2 - kn) * \
                         sym.exp(-sg * j * 2 * pi * k * n0 / self.N) / c0
                     return const * (result_0 + result)
 
